@@ -25,6 +25,8 @@ cProg == CASE P = "dA_lA" -> << <<"deferred", "A">>, <<"load", "A">> >>
            [] P = "lA_rA_lA" -> << <<"load", "A">>, <<"refresh", "A">>, <<"load", "A">> >>
            [] P = "dA_rA_lA_lA" -> << <<"deferred", "A">>, <<"refresh", "A">>, <<"load", "A">>, <<"load", "A">> >>
            [] P = "lC_rC_lC_lC" -> << <<"load", "C">>, <<"refresh", "C">>, <<"load", "C">>, <<"load", "C">> >>
+           [] P = "lA_tC_rA_lA" -> << <<"load", "A">>, <<"touch", "C">>, <<"refresh", "A">>, <<"load", "A">> >>
+           [] P = "dA_tB_rA_lA_lB" -> << <<"deferred", "A">>, <<"touch", "B">>, <<"refresh", "A">>, <<"load", "A">>, <<"load", "B">> >>
            [] P = "dB_rA_lB_lA" -> << <<"deferred", "B">>, <<"refresh", "A">>, <<"load", "B">>, <<"load", "A">> >>
            [] OTHER -> << <<"load", "C">>, <<"deferred", "A">>, <<"load", "C">> >>
 \* state of the download cache at the start: empty, warm (a fresh copy of every resource that exists) or
